@@ -399,6 +399,142 @@ func runC09(c *Ctx) {
 				"post": DumpState(&cpu.States, cpu.HALT)})
 		}
 	})
+	// ---- the bundled memory types handed over directly: a sparse z80.MapMemory (unwritten
+	// addresses read C7) and a short z80.DumbMemory (addresses beyond the slice read 0 and
+	// ignore writes); whole operations, final registers and memory against the same loop
+	// specification run on a model of that memory
+	nsparse := c.Pick(4000, 80000)
+	var sparseOps int64
+	Parallel(nsparse, func(si int) {
+		defer func() {
+			if pn := recover(); pn != nil {
+				c.R.Violation("C09/bundled-memory/panic", map[string]interface{}{"case": si, "panic": fmt.Sprint(pn)})
+			}
+		}()
+		r := mon.NewRng(mon.Hash(uint64(c.Seed), uint64(si), 0xC09B))
+		op := []uint8{0xa0, 0xa8, 0xb0, 0xb8, 0xa1, 0xb1, 0xb9, 0xa2, 0xb2, 0xa3, 0xb3, 0xbb}[si%12]
+		kind := op & 3
+		useMap := si%2 == 0
+		short := 0x0800 + r.Intn(0x7000)
+		pre := RandStates(r)
+		pre.PC = 0x0100 + uint16(r.Intn(0x400))
+		pc := pre.PC
+		cnt := uint16(1 + r.Intn(300))
+		if kind <= 1 {
+			pre.BC.SetU16(cnt)
+		} else {
+			pre.BC.Hi = uint8(cnt)
+		}
+		pre.HL.SetU16(Ptr16(r, pc))
+		pre.DE.SetU16(Ptr16(r, pc, pre.HL.U16()))
+		// model of the memory: default value + a few islands of written bytes
+		spm := &mon.Mem{}
+		var real z80.Memory
+		if useMap {
+			spm.FillByte(0xc7)
+			real = z80.MapMemory{}
+		} else {
+			spm.FillByte(0x00)
+			real = make(z80.DumbMemory, short)
+		}
+		inRange := func(a uint16) bool { return useMap || int(a) < short }
+		place := func(a uint16, v uint8) {
+			if inRange(a) {
+				spm.Data[a] = v
+				real.Set(a, v)
+			}
+		}
+		for k := 0; k < 6; k++ {
+			base := pre.HL.U16() + uint16(r.Intn(64)) - 16
+			for j := 0; j < r.Intn(12); j++ {
+				place(base+uint16(j), r.U8())
+			}
+		}
+		place(pc, 0xed) // the instruction wins over the data islands
+		place(pc+1, op)
+		if !inRange(pc + 1) {
+			return
+		}
+		ioSeed := r.U64()
+		eio, sio := &mon.IO{Seed: ioSeed}, &mon.IO{Seed: ioSeed}
+		// specification on the model; writes beyond a short DumbMemory are ignored
+		sp := &blockSpec{A: pre.AF.Hi, F: pre.AF.Lo, B: pre.BC.Hi, C: pre.BC.Lo, D: pre.DE.Hi, E: pre.DE.Lo, H: pre.HL.Hi, L: pre.HL.Lo}
+		if !useMap {
+			// the loop specification writes through mon.Mem.Set: mask writes outside the slice
+			// by running it and then restoring the default there (reads of those cells inside
+			// the operation must see 0, so do it element-wise: simplest is to refuse cases whose
+			// destination leaves the slice)
+			dst := sp.de()
+			if kind == 2 {
+				dst = sp.hl()
+			}
+			if kind == 0 || kind == 2 {
+				lo, hi := int(dst)-int(cnt)-2, int(dst)+int(cnt)+2
+				if lo < 0 || hi >= short {
+					return
+				}
+			}
+		}
+		runBlockSpec(sp, op, pc, spm, sio, 70000)
+		cpu := z80.CPU{States: pre, Memory: real, IO: eio}
+		nsteps := 0
+		for nsteps < 70000 {
+			cpu.Step()
+			nsteps++
+			if cpu.PC != pc || real.Get(pc) != 0xed || real.Get(pc+1) != op {
+				break
+			}
+		}
+		mu.Lock()
+		sparseOps++
+		mu.Unlock()
+		bad := ""
+		post := cpu.States
+		exp := pre
+		exp.AF = z80.Register{Hi: sp.A, Lo: sp.F}
+		exp.BC = z80.Register{Hi: sp.B, Lo: sp.C}
+		exp.DE = z80.Register{Hi: sp.D, Lo: sp.E}
+		exp.HL = z80.Register{Hi: sp.H, Lo: sp.L}
+		exp.PC = pc
+		if sp.Finished {
+			exp.PC = pc + 2
+		}
+		exp.IR.Lo = post.IR.Lo
+		fOK := (post.AF.Lo^exp.AF.Lo)&sp.FMask == 0 || (sp.HasAlt && post.AF.Lo == sp.AltF)
+		post.AF.Lo = exp.AF.Lo
+		switch {
+		case nsteps != sp.Steps:
+			bad = fmt.Sprintf("number of Steps %d, want %d elements", nsteps, sp.Steps)
+		case post != exp || !fOK:
+			bad = "final registers / flags"
+		case !mon.EqualSeq(eio.Log, sio.Log):
+			bad = "port log"
+		}
+		if bad == "" {
+			for a := 0; a < 65536; a++ {
+				if real.Get(uint16(a)) != spm.Data[a] {
+					bad = fmt.Sprintf("memory at %04X = %02X, want %02X", a, real.Get(uint16(a)), spm.Data[a])
+					break
+				}
+			}
+		}
+		if bad != "" {
+			mk := "DumbMemory(short)"
+			if useMap {
+				mk = "MapMemory(sparse)"
+			}
+			sig := bad
+			if len(sig) > 24 {
+				sig = sig[:24]
+			}
+			c.R.Violation(fmt.Sprintf("C09/bundled-memory/%s/%s/%s", mk, opName[op], sig), map[string]interface{}{
+				"what": bad, "memory": mk, "instruction": opName[op], "pre": DumpState(&pre, false), "post": DumpState(&cpu.States, cpu.HALT),
+				"spec_steps": sp.Steps, "emu_steps": nsteps, "short_len": short})
+		}
+	})
+	evals += sparseOps
+	c.R.Set("operations_on_bundled_memory_types_directly", sparseOps)
+
 	c.R.Set("evaluations", evals)
 	c.R.Set("distinct_nontrivial", distinct.N())
 	c.R.Set("steps", steps)
@@ -407,6 +543,6 @@ func runC09(c *Ctx) {
 	c.R.Set("overlapping_copy_cases", overlapN)
 	c.R.Set("pointer_wrap_cases", wrapN)
 	c.R.Set("exhaustive", false)
-	c.R.Set("rule", "each of the 16 block instructions from boundary-biased states: counts BC/B in {0,1,2,255,256,65535} or random, HL/DE anywhere incl. overlap distance -3..+3, ranges running into the instruction itself, wrap at FFFF/0000; for CP forms A absent from the scanned range, present at random, or exactly where the count runs out; random memory and device bytes. The emulator is Stepped until PC leaves the instruction (or its bytes are overwritten); per Step exactly one element (bus log) and PC on/after the instruction; at the end registers, documented flags (block-I/O flags documented-or-silicon; bits 3/5 not compared for a cut-off repeat), memory image, port log and number of Steps are compared with a direct loop specification. Distinct = distinct (instruction, count, HL, DE, PC); every operation transfers or compares at least one element")
+	c.R.Set("rule", "each of the 16 block instructions from boundary-biased states: counts BC/B in {0,1,2,255,256,65535} or random, HL/DE anywhere incl. overlap distance -3..+3, ranges running into the instruction itself, wrap at FFFF/0000; for CP forms A absent from the scanned range, present at random, or exactly where the count runs out; random memory and device bytes. The emulator is Stepped until PC leaves the instruction (or its bytes are overwritten); per Step exactly one element (bus log) and PC on/after the instruction; at the end registers, documented flags (block-I/O flags documented-or-silicon; bits 3/5 not compared for a cut-off repeat), memory image, port log and number of Steps are compared with a direct loop specification. A second phase runs whole operations on a sparse z80.MapMemory (unwritten cells read C7) and a short z80.DumbMemory handed to the CPU directly, against the same specification on a model of that memory. Distinct = distinct (instruction, count, HL, DE, PC); every operation transfers or compares at least one element")
 	c.R.Assume("if an element overwrites the instruction's own bytes the specification stops there too (hardware would fetch the new bytes)")
 }
